@@ -355,9 +355,19 @@ class Run(tree.Item):
         ctx().assume(z3.Length(d["fpseq"]) == d["count"].t)
 
     def __getattr__(self, k):
+        if k in ("head", "tail"):
+            return RunLayout(self, k)
         raise EngineUnsupported("Run attribute %r" % k)
 
     def __setattr__(self, k, v):
+        # uniform update of every member: x.head = P + x.head  /  x.tail = x.tail + S   (recorded as ghost)
+        if k in ("head", "tail") and isinstance(v, RunLayoutUpdate) and v.run is self and v.attr == k:
+            key = "%s_%s" % (k, v.side)
+            if key in self.__dict__.setdefault("updates", {}):
+                raise EngineUnsupported("second uniform update of Run.%s" % k)
+            self.__dict__["updates"][key] = v.text
+            log_write(self, k, None, v)
+            return
         raise EngineUnsupported("write to Run attribute %r" % k)
 
     def __str__(self, head_tail=False):
@@ -383,6 +393,38 @@ class Run(tree.Item):
     __hash__ = object.__hash__
 
 
+class RunLayout:
+    """head (or tail) of the members of a run, only usable in the uniform updates P + head / tail + S"""
+    __vf_symbolic__ = True
+
+    def __init__(self, run, attr):
+        self.run = run
+        self.attr = attr
+
+    def __radd__(self, o):
+        if self.attr == "head" and isinstance(o, (str, SymStr)):
+            return RunLayoutUpdate(self.run, "head", "prefix", o)
+        raise EngineUnsupported("Run.%s used outside a uniform update" % self.attr)
+
+    def __add__(self, o):
+        if self.attr == "tail" and isinstance(o, (str, SymStr)):
+            return RunLayoutUpdate(self.run, "tail", "suffix", o)
+        raise EngineUnsupported("Run.%s used outside a uniform update" % self.attr)
+
+    def __bool__(self):
+        raise EngineUnsupported("truth value of Run.%s" % self.attr)
+
+    def __str__(self):
+        raise EngineUnsupported("Run.%s used outside a uniform update" % self.attr)
+
+
+class RunLayoutUpdate:
+    __vf_symbolic__ = True
+
+    def __init__(self, run, attr, side, text):
+        self.run, self.attr, self.side, self.text = run, attr, side, text
+
+
 class RunText:
     """text of a Run: only meaningful as an element of a join with the run's own operator (L-J)"""
     __vf_symbolic__ = True
@@ -393,6 +435,13 @@ class RunText:
     def __vf_join_piece__(self, sep):
         if not (isinstance(sep, str) and sep == self.run.op):
             raise EngineUnsupported("Run joined with a separator other than its operator")
+        ups = self.run.__dict__.get("updates")
+        if ups:
+            # text of the run after a uniform head/tail update: a function of the old text and the inserted text
+            t = self.run.jointext.t
+            for k in sorted(ups):
+                t = z3.Function("run_text_" + k, z3.StringSort(), z3.StringSort(), z3.StringSort())(t, S(ups[k]))
+            return SymStr(t)
         return self.run.jointext
 
     def __add__(self, o):
